@@ -187,7 +187,9 @@ def doNdN (l : Line) : Option String := do
     match axesErr m (List.range ndim) with
     | some e => some (errStr e)
     | none =>
-      let g := gradientN den (tbl m p) shape c dx (arrs.getD 0 (fun _ => 0))
+      let prog := Gen.FiniteDiff.accProg .grad
+      if !prog.perAxis then none
+      let g := loopCompN den (fun mm => tbl mm p) m shape c dx (arrs.getD 0 (fun _ => 0)) prog.steps
       some s!"ok r={";".intercalate ((List.range ndim).map (fun a => dump (g a)))}"
   | "div" =>
     let m ← method? l "method"
@@ -195,14 +197,18 @@ def doNdN (l : Line) : Option String := do
     match axesErr m (List.range ndim) with
     | some e => some (errStr e)
     | none =>
-      some s!"ok r={dump (divergenceN den (tbl m p) shape ndim c dx (fun a => arrs.getD a (fun _ => 0)))}"
+      let prog := Gen.FiniteDiff.accProg .div
+      if prog.perAxis then none
+      some s!"ok r={dump (loopAccN den (fun mm => tbl mm p) m shape ndim c dx (fun a => arrs.getD a (fun _ => 0)) prog.steps)}"
   | "lap" =>
     if arrs.length ≠ 1 then none
     if Gen.FiniteDiff.lapRejected.contains p then some "err:value" else
     match (axesErr .forward (List.range ndim)).orElse (fun _ => axesErr .backward (List.range ndim)) with
     | some e => some (errStr e)
     | none =>
-      some s!"ok r={dump (laplacianN den (tbl .forward p) (tbl .backward p) shape ndim c dx (arrs.getD 0 (fun _ => 0)))}"
+      let prog := Gen.FiniteDiff.accProg .lap
+      if prog.perAxis then none
+      some s!"ok r={dump (loopAccN den (fun mm => tbl mm p) .forward shape ndim c dx (fun _ => arrs.getD 0 (fun _ => 0)) prog.steps)}"
   | _ => none
 
 /-- `inner ndim= shape= dx= bdry=0|1 x=… y=…` → `ok r=<x.inner(y)>` of the `uniform_discr`
